@@ -136,11 +136,11 @@ func c15OpenBytes(tag string, maxLen, P, C int) {
 }
 
 func Verif_C15_open_bytes_structured() {
-	P, C := 2, 2
+	P, C := 1, 2
 	if verifTier() >= 1 {
-		P, C = 2, 3
+		P, C = 2, 2
 	}
-	verifNote("OPEN bytes->value->bytes: body length symbolic 0..4077, at most P optional parameters x C capabilities each (2x2 quick / 2x3 thorough), all length octets and contents symbolic")
+	verifNote("OPEN bytes->value->bytes: body length symbolic 0..4077, at most P optional parameters x C capabilities each (1x2 quick / 2x2 thorough), all length octets and contents symbolic")
 	verifWant("st-open-rejected")
 	verifWant("st-open-accepted")
 	c15OpenBytes("st-", 4077, P, C)
